@@ -20,6 +20,8 @@ Proof.
     destruct (run (core x) (map NoConn (inb x))) eqn:E; [|discriminate]. inversion H; subst. eexists; exact E.
   - destruct (sendloop x && closed (core x) && match inb x with [] => true | _ => false end); [|discriminate].
     destruct (run (core x) (map QueueFail (drained x))) eqn:E; [|discriminate]. inversion H; subst. eexists; exact E.
+  - destruct (sendloop x && match inb x with [] => false | _ => true end); [|discriminate].
+    inversion H; subst. exists []. reflexivity.
   - destruct (core_allowed x l); [|discriminate]. destruct (step (core x) l) eqn:E; [|discriminate].
     inversion H; subst. exists [l]. cbn [run]. now rewrite E.
 Qed.
@@ -196,6 +198,86 @@ Proof.
   - left. rewrite forallb_forall in G. induction (inb x) as [|a r IH]; simpl; auto.
     rewrite (G a (or_introl eq_refl)). simpl. apply IH. intros y Hy. apply G. now right.
   - right. destruct lim as [l|]; [|discriminate]. exists l. split; auto. now apply Nat.leb_le.
+Qed.
+
+(* ---------------------------------------------------------------- the retry of leftover entries (fix 7ad2a8a) *)
+Lemma build_labels_succeeds : forall takes f n s, NoDup takes -> next_id s = n ->
+  (forall c, In c takes -> ent s c = f c /\ e_st (f c) = Queued) ->
+  exists s', run s (build_labels f n takes) = Some s'.
+Proof.
+  induction takes as [|c0 r IH]; simpl; intros f n s ND Hn Hq; [eexists; reflexivity|].
+  inversion ND as [|? ? Hnot ND']; subst.
+  destruct (Hq c0 (or_introl eq_refl)) as [E0 Q0].
+  destruct (e_canceled (f c0)) eqn:EC; cbn [run].
+  - assert (Es : step s (DropCanceled c0) = Some (with_ent s (upd (ent s) c0 (retire (ent s c0))))).
+    { simpl. rewrite E0, Q0, EC. reflexivity. }
+    rewrite Es. apply IH; auto. intros c Hc. simpl.
+    assert (c <> c0) by (intros E; subst; tauto). rewrite upd_other by auto. apply Hq. now right.
+  - assert (Es : step s (Build c0 (S (next_id s))) = Some (mkState (S (next_id s)) (tab s) (upd (ent s) c0 (set_st (ent s c0) (Built (S (next_id s))))) (loops s) (epoch s) (closed s) (outdated s) ((S (next_id s), c0) :: alloc s))).
+    { simpl. rewrite E0, Q0, EC. simpl. assert (next_id s <? S (next_id s) = true) as -> by (apply Nat.ltb_lt; lia). reflexivity. }
+    rewrite Es. apply IH; auto. intros c Hc. simpl.
+    assert (c <> c0) by (intros E; subst; tauto). rewrite upd_other by auto. apply Hq. now right.
+Qed.
+
+Lemma filter_none : forall (A : Type) (p : A -> bool) (l : list A), (forall a, In a l -> p a = false) -> filter p l = [].
+Proof.
+  induction l as [|a r IH]; simpl; intros H; auto. rewrite (H a (or_introl eq_refl)). apply IH. intros b Hb. apply H. now right.
+Qed.
+
+Lemma nodupb_of_NoDup : forall l, NoDup l -> nodupb l = true.
+Proof.
+  induction l as [|c r IH]; simpl; intros H; auto. inversion H; subst. rewrite IH by auto.
+  destruct (memb c r) eqn:M; auto. apply memb_In in M. tauto.
+Qed.
+
+(* progress: whenever the send loop is alive and an entry sits in a well-formed builder, the wake-up step is enabled
+   -- no request has to arrive -- and after it a round that builds the entry is enabled (popping the whole builder is
+   always a legal round: nothing stays behind) *)
+Lemma wake_builds_leftover : forall x c, sendloop x = true -> NoDup (inb x) ->
+  (forall c', In c' (inb x) -> e_st (ent (core x) c') = Queued) ->
+  In c (inb x) -> e_canceled (ent (core x) c) = false ->
+  exists x1 x2 lim i, xstep x XWake = Some x1 /\ core x1 = core x /\ inb x1 = inb x
+    /\ xstep x1 (XBuildRound lim (inb x)) = Some x2 /\ e_st (ent (core x2) c) = Built i /\ inb x2 = [].
+Proof.
+  intros x c HS ND HQ Hin HC.
+  assert (Hw : xstep x XWake = Some (mkSys (core x) (chq x) (inb x) (pri x) (asy x) (sendloop x) true)).
+  { simpl. rewrite HS. destruct (inb x); [destruct Hin | reflexivity]. }
+  set (x1 := mkSys (core x) (chq x) (inb x) (pri x) (asy x) (sendloop x) true).
+  destruct (build_labels_succeeds (inb x) (ent (core x)) (next_id (core x)) (core x) ND eq_refl) as [s' Hr].
+  { intros c' Hc'. split; auto. }
+  assert (G : round_guard x1 None (inb x) = true).
+  { unfold round_guard, x1; simpl. rewrite HS. simpl. unfold round_ok, quota_ok.
+    rewrite (nodupb_of_NoDup _ ND). simpl.
+    assert (A : forallb (fun t => memb t (inb x)) (inb x) = true) by (apply forallb_forall; intros t Ht; now apply memb_In).
+    rewrite A. simpl.
+    assert (B : forallb (fun r => memb r (inb x) || ((pri x r <? high_pri) && forallb (fun t => pri x r <=? pri x t) (inb x))) (inb x) = true).
+    { apply forallb_forall. intros r Hr0. apply memb_In in Hr0. now rewrite Hr0. }
+    rewrite B. reflexivity. }
+  exists x1. eexists. exists None.
+  assert (Hx2 : xstep x1 (XBuildRound None (inb x)) = Some (mkSys s' (chq x) (filter (fun c0 => negb (memb c0 (inb x))) (inb x)) (pri x) (asy x) (sendloop x) false)).
+  { unfold xstep. rewrite G. unfold x1; cbn [core inb chq pri asy sendloop]. rewrite Hr. reflexivity. }
+  destruct (build_labels_popped _ _ _ _ _ ND Hr c Hin) as [(P & _)|(_ & i & Q & _)]; [congruence|].
+  exists i. split; [exact Hw|]. split; [reflexivity|]. split; [reflexivity|]. split; [exact Hx2|]. split; [exact Q|].
+  cbn [inb]. apply filter_none. intros a Ha. apply memb_In in Ha. now rewrite Ha.
+Qed.
+
+(* before the fix there was no wake-up: a send loop that is waiting (not ready) builds nothing, and only the arrival of a
+   request (XFetch) or the wake-up makes it ready again *)
+Lemma leftover_needs_wake : forall x l x', ready x = false -> xstep x l = Some x' ->
+  l <> XWake -> (forall c, l <> XFetch c) ->
+  ready x' = false /\ (forall lim takes, xstep x (XBuildRound lim takes) = None).
+Proof.
+  intros x l x' HR H N1 N2. split.
+  - destruct l; unfold xstep in H.
+    + destruct (step (core x) (Submit c h)); [|discriminate]. inversion H; subst; auto.
+    + exfalso. eapply N2; eauto.
+    + unfold round_guard in H. rewrite HR in H. rewrite andb_false_r in H. simpl in H. discriminate.
+    + destruct (sendloop x); [|discriminate]. destruct (run (core x) _); [|discriminate]. inversion H; subst; auto.
+    + destruct (sendloop x); [|discriminate]. destruct (run (core x) _); [|discriminate]. inversion H; subst; auto.
+    + destruct (sendloop x && closed (core x) && _); [|discriminate]. destruct (run (core x) _); [|discriminate]. inversion H; subst; auto.
+    + congruence.
+    + destruct (core_allowed x l); [|discriminate]. destruct (step (core x) l); [|discriminate]. inversion H; subst; auto.
+  - intros lim takes. unfold xstep, round_guard. rewrite HR. now rewrite andb_false_r.
 Qed.
 
 (* ---------------------------------------------------------------- a queued entry is only touched by its own steps *)
